@@ -56,7 +56,10 @@ def get_default_parameters(search_space: vz.SearchSpace) -> vz.ParameterDict:
         builder.choose_value(pc.bounds[0])
       else:
         # TODO: Handle scaling properly.
-        midpoint = (pc.bounds[0] + pc.bounds[1]) / 2
+        # Halve before adding: the sum of two large bounds of the same sign
+        # overflows to inf, which is not a point of the search space.
+        low, high = pc.bounds
+        midpoint = min(max(low / 2 + high / 2, low), high)
         builder.choose_value(midpoint)
   return builder.parameters
 
